@@ -19,7 +19,7 @@
    fk(..., collection=...) recursion           fk_forward / fk_calls / fk
    agc(x, wl, si, epsilon)                     agc_nswin / conv_same / agc_row / agc
    kfilt body (agc, mirror pad, taper,
-        sosfiltfilt along channels, unpad)     kfilt_base (spatial high-pass H abstract)
+        sosfiltfilt along channels, unpad)     spatial_body / kfilt_base / fk_base (filter abstract)
    destripe: butter ; fshift ; interpolate ;
         x[inside] = spatial(x[inside])         inside_brain / outside_brain / spatial_step / destripe
    neuropixel.adc_shifts                       adc_params / adc_id / adc_shift_num
@@ -271,24 +271,42 @@ Section Numeric.
      window lagc : the normalised Hann window of agc(x, wl=lagc, si=1.0), abstract data.
      lagc <= 0 stands for `not lagc` (None or 0). *)
   Definition lastn {A} (n : nat) (l : list A) : list A := skipn (length l - n) l.
-  Definition kfilt_base (H : Z -> mat -> mat) (taper : nat -> nat -> vec)
-             (window : Z -> vec) (eps : R) (p : kfilt_params) (x : mat) : mat :=
+  (* the body shared by kfilt and fk after the repair 808a76c:
+       ntr_pad = min(int(ntr_pad), nx); ntr_tap = ntr_pad if ntr_tap is None else ntr_tap
+       gain control (optional), mirrored padding, taper, filter Hf, cropping, gain restored *)
+  Definition spatial_body (Hf : mat -> mat) (taper : nat -> nat -> vec) (agcw : option vec)
+             (eps : R) (ntr_pad ntr_tap : Z) (x : mat) : mat :=
     let nx := length x in
-    let pad := Z.to_nat (k_ntr_pad p) in
-    let tap := if (k_ntr_tap p =? -1)%Z then pad else Z.to_nat (k_ntr_tap p) in
+    let pad := Nat.min (Z.to_nat ntr_pad) nx in
+    let tap := if (ntr_tap =? -1)%Z then pad else Z.to_nat ntr_tap in
     let nxp := (nx + 2 * pad)%nat in
-    let xg := if (k_lagc p <=? 0)%Z then (x, None)
-              else let a := agc (window (k_lagc p)) eps x in (fst a, Some (snd a)) in
+    let xg := match agcw with
+              | None => (x, None)
+              | Some w => let a := agc w eps x in (fst a, Some (snd a))
+              end in
     let xf := fst xg in
     let xf := if (0 <? pad)%nat then rev (firstn pad xf) ++ xf ++ rev (lastn pad xf) else xf in
     let xf := if (0 <? tap)%nat
               then map (fun p => map (rmul (fst p)) (snd p)) (combine (taper nxp tap) xf) else xf in
-    let xf := H (k_butter p) xf in
+    let xf := Hf xf in
     let xf := if (0 <? pad)%nat then firstn (length xf - 2 * pad) (skipn pad xf) else xf in
     match snd xg with
     | None => xf
     | Some g => map (fun p => vmul (fst p) (snd p)) (combine xf g)
     end.
+
+  Definition kfilt_base (H : Z -> mat -> mat) (taper : nat -> nat -> vec)
+             (window : Z -> vec) (eps : R) (p : kfilt_params) (x : mat) : mat :=
+    spatial_body (H (k_butter p)) taper
+      (if (k_lagc p <=? 0)%Z then None else Some (window (k_lagc p))) eps
+      (k_ntr_pad p) (k_ntr_tap p) x.
+
+  (* fk body: F p = the f-k domain multiplication (fft2, attenuation, ifft2), abstract *)
+  Definition fk_base (F : fk_params -> mat -> mat) (taper : nat -> nat -> vec)
+             (window : Z -> vec) (eps : R) (p : fk_params) (x : mat) : mat :=
+    spatial_body (F p) taper
+      (if (f_lagc p <=? 0)%Z then None else Some (window (f_lagc p))) eps
+      (f_ntr_pad p) (f_ntr_tap p) x.
 
   (* ---------------- destripe ---------------- *)
   (* x[inside_brain, :] = spatial_fcn(x[inside_brain, :]) *)
